@@ -479,6 +479,37 @@ func checkC06(c *hx.Checker) {
 				jobs = append(jobs, ja)
 			}
 		}
+		// explicit spellings of defaults and attributes outside the statement's scope
+		{
+			base := recCfg{Op: op, DT: "float32", S: 2, B: 2, I: 2, H: 2, HasB: true, HasH0: true, HasC0: op == "LSTM", Route: "op"}
+			jd := base.job()
+			jd.oc.Attrs = append(jd.oc.Attrs, hx.AStr("direction", "forward"))
+			jd.id += " direction=forward"
+			jobs = append(jobs, jd)
+			ja := base.job()
+			ja.oc.Attrs = append(ja.oc.Attrs, hx.AFloats("activation_alpha", 0.2), hx.AFloats("activation_beta", 0.5))
+			ja.id += " activation_alpha/beta (unused by sigmoid/tanh/relu)"
+			jobs = append(jobs, ja)
+			for _, dir := range []string{"reverse", "bidirectional", "sideways"} {
+				jr := base.job()
+				jr.oc.Attrs = append(jr.oc.Attrs, hx.AStr("direction", dir))
+				jr.id += " direction=" + dir
+				jr.dom = hx.DNoPanic // non-forward directions are outside the statement: only "no panic" (today: refused)
+				jobs = append(jobs, jr)
+			}
+			jc := base.job()
+			jc.oc.Attrs = append(jc.oc.Attrs, hx.AFloat("clip", 0.5))
+			jc.id += " clip"
+			jc.dom = hx.DNoPanic
+			jobs = append(jobs, jc)
+			jseq := base.job()
+			lens := ref.New(ref.I32, 2)
+			lens.V[0], lens.V[1] = 2, 2
+			jseq.oc.Inputs[4] = hx.ToTJ(lens)
+			jseq.id += " sequence_lens"
+			jseq.dom = hx.DRefuse // full-length sequence_lens: same result as without, or refused
+			jobs = append(jobs, jseq)
+		}
 		// larger geometries beyond the exhaustive box
 		for _, g := range [][4]int{{12, 4, 5, 9}, {20, 1, 3, 16}, {2, 7, 11, 4}} {
 			v := recCfg{Op: op, DT: "float32", S: g[0], B: g[1], I: g[2], H: g[3], HasB: true, HasH0: true, HasC0: op == "LSTM", HasP: op == "LSTM", Route: "op"}
